@@ -1212,6 +1212,15 @@ fn lower_expr_with_args(
                                 combined_args.extend(trailing_args);
                                 lower_expr_with_args(ctx, other, combined_args)
                             }
+                        } else if args.is_empty()
+                            && trailing_args.is_empty()
+                            && matches!(&other, cst::Expr::PrefixExpr(_))
+                        {
+                            // `-f()` / `!f()`: the parser attaches the argument list to the whole
+                            // prefix expression. An empty list cannot travel as trailing arguments
+                            // (it would vanish), so the call is applied to the operand here.
+                            let lowered = lower_expr_with_args(ctx, other, Vec::new())?;
+                            Some(apply_empty_call(lowered, astptr))
                         } else {
                             let mut combined_args = args;
                             combined_args.extend(trailing_args);
@@ -1939,6 +1948,22 @@ fn apply_trailing_args(
             );
             None
         }
+    }
+}
+
+/// Applies a call with no arguments to the operand of a prefix expression (see `CallExpr`).
+fn apply_empty_call(expr: ast::Expr, call_astptr: MySyntaxNodePtr) -> ast::Expr {
+    match expr {
+        ast::Expr::EUnary { op, expr, astptr } => ast::Expr::EUnary {
+            op,
+            expr: Box::new(apply_empty_call(*expr, call_astptr)),
+            astptr,
+        },
+        callee => ast::Expr::ECall {
+            func: Box::new(callee),
+            args: Vec::new(),
+            astptr: call_astptr,
+        },
     }
 }
 
